@@ -125,10 +125,11 @@ func (c *cluster) permuteStep(st string) string {
 		return numRe.ReplaceAllStringFunc(x, func(d string) string { return fmt.Sprint(c.permute(atoi(d))) })
 	}
 	switch f[0] {
-	case "w", "r":
+	case "w", "r", "wc":
 		if len(f) > 1 {
 			f[1] = ren(f[1])
 		}
+	case "cancel":
 	default:
 		for i := 1; i < len(f); i++ {
 			f[i] = ren(f[i])
@@ -558,7 +559,21 @@ func (s *scheduler) pick() string {
 			target = hx.Pick(s.r, ups)
 		}
 		if target != 0 {
-			add(s.clientStep(target), 14)
+			st := s.clientStep(target)
+			if strings.HasPrefix(st, "w:") && s.r.Intn(100) < 10 {
+				st = "wc" + st[1:]
+			}
+			add(st, 14)
+		}
+	}
+	// a client gives up on a write that is in flight
+	for _, o := range c.ops {
+		c.mu.Lock()
+		inflight := o.isWrite() && o.appended && !o.done && !o.cancelled
+		c.mu.Unlock()
+		if inflight {
+			add(fmt.Sprintf("cancel:%d", o.id), 2)
+			break
 		}
 	}
 	// faults
